@@ -308,8 +308,15 @@ def check(run):
             test.append(rnd.choice([1, 2, 2, 3, 0, -1, 2.5, 10]) if k < 0.4 else rnd.choice(WORDS + ['2', '10', '']) if k < 0.75
                         else rnd.choice([True, False]) if k < 0.85 else BLANK)
         test = [('q' if v == '' else v) if not (v is BLANK) else v for v in test]
+        mixed = it % 5 == 0
+        if mixed:
+            # logicals next to the equal numbers (as floats and as numeric text): each is compared within its own type
+            test = [rnd.choice([True, False, 1.0, 0.0, 1, 0, '1', '0', 2.0, BLANK]) for _ in range(rnd.randint(2, 6))]
+            n = len(test)
         k = rnd.random()
-        if k < 0.25:
+        if mixed:
+            crit = rnd.choice([1, 0, 1.0, 0.0, True, False, '=1', '<>0', '=TRUE', '<>FALSE', '>0', '1', '0'])
+        elif k < 0.25:
             crit = rnd.choice(['a*', '?b', '*b*', 'a?c', 'A*', '*', '?', 'a~*', 'a~?', '*apple', '=a*', 'x?', '??', '*~*'])
         elif k < 0.65:
             crit = rnd.choice(OPS) + rnd.choice(['1', '2', '2.5', '0', '10', 'a', 'B', 'ab', 'abc', 'c', 'TRUE', 'x'])
